@@ -71,16 +71,33 @@ def lake_build(targets=()):
     return p.returncode == 0, p.stdout.decode("utf-8", "replace")
 
 
-def scan_sources():
-    """textual scan of lean/ for forbidden constructs (comments discarded)"""
-    bad = []
-    for root, _, files in os.walk(LEAN_DIR):
-        if ".lake" in root:
+def module_closure(modules):
+    """the J2M modules reachable through `import` from the given ones (what a property's theorems depend on)"""
+    seen, todo = set(), list(modules)
+    while todo:
+        m = todo.pop()
+        if m in seen or not m.startswith("J2M"):
             continue
-        for f in files:
-            if not f.endswith(".lean"):
+        path = os.path.join(LEAN_DIR, *m.split(".")) + ".lean"
+        if not os.path.exists(path):
+            continue
+        seen.add(m)
+        for line in open(path, encoding="utf-8"):
+            mm = re.match(r"\s*import\s+(\S+)", line)
+            if mm:
+                todo.append(mm.group(1))
+    return sorted(seen)
+
+
+def scan_sources(modules):
+    """textual scan of the modules a property depends on (and the driver) for forbidden constructs (comments discarded)"""
+    bad = []
+    paths = [os.path.join(LEAN_DIR, *m.split(".")) + ".lean" for m in module_closure(list(modules) + ["J2M.Codec"])]
+    paths.append(os.path.join(LEAN_DIR, "Main.lean"))
+    for path in paths:
+        if True:
+            if not os.path.exists(path):
                 continue
-            path = os.path.join(root, f)
             text = open(path, encoding="utf-8").read()
             text = re.sub(r"/-.*?-/", lambda m: "\n" * m.group(0).count("\n"), text, flags=re.S)
             for i, line in enumerate(text.split("\n"), 1):
@@ -148,13 +165,13 @@ def run_check(pid, tier, seed, repo):
     # 1. regenerate Extracted.lean, 2. build + audit
     consts, changed = extract.regenerate(repo)
     ctx.consts = consts
-    ok, log = lake_build()
-    if ok and ob["imports"]:
-        ok, log = lake_build(ob["imports"])
+    # the driver's modules and this property's theorem modules (module targets: other properties' files are not needed)
+    ok, log = lake_build(["+J2M.Codec"] + ["+" + m for m in ob["imports"]])
     lean_failed = []
     if not ok:
         lean_failed.append("lake build failed: " + log[-1500:])
-    bad = scan_sources()
+    bad = scan_sources(ob["imports"])
+    ctx.stats["lean_modules_scanned"] = len(module_closure(list(ob["imports"]) + ["J2M.Codec"]))
     if bad:
         lean_failed.append("forbidden constructs: " + "; ".join(bad[:5]))
     ax = audit_axioms(ob["theorems"], ob["imports"]) if ok else {t: "not built" for t in ob["theorems"]}
